@@ -147,6 +147,16 @@ def check_conversion(ctx, fn: ast.AST, where: str) -> None:
                         continue
                     caught |= {"*"} if h.type is None else {source.src(x).split(".")[-1] for x in (h.type.elts if isinstance(h.type, ast.Tuple) else [h.type])}
         everything = bool(caught & {"*", "Exception", "BaseException"})
+        if where.startswith("FlowIR."):
+            # the description is read again by the status monitor: the handler replaces the malformed value there too
+            stores_back = any(isinstance(a_, ast.Assign) and any(isinstance(t_, ast.Subscript) and isinstance(t_.slice, ast.Constant) and t_.slice.value == "stage-weight"
+                                                                 for t_ in a_.targets)
+                              for t in tries if any(x is c for st in t.body for x in ast.walk(st)) for h in t.handlers for st in h.body for a_ in ast.walk(st))
+            ctx.ob(RID, c, stores_back,
+                   "%s: the handler writes the replacement weight back into the status report" % where if stores_back else
+                   "%s counts a malformed weight as missing for its own sum test but leaves the value in the status report: when the other weights "
+                   "sum to one they are kept here, while the status monitor - reading the same report - cannot convert the entry and falls back "
+                   "to uniform weights; the two normalisation sites disagree" % where, construct="%s: malformed weight replaced in the report" % where)
         for need in ("ValueError", "TypeError"):
             ok = everything or need in caught
             ctx.ob(RID, c, ok, "%s: %s of the conversion is handled (the weight counts as missing)" % (where, need) if ok else
@@ -294,7 +304,8 @@ def run(ctx) -> None:
             return a
         return None
     stores = [n for n in cfg.nodes if stores_weight(n) is not None]
-    defaults0 = [n for n in stores if const_num(n.ast.value) == 0]
+    # stores of the "missing" weight: the literal 0, or the replacement made by the handler of a failed conversion
+    defaults0 = [n for n in stores if const_num(n.ast.value) == 0 or any(isinstance(a_, ast.ExceptHandler) for a_ in source.ancestors(n.ast))]
     replaced = [n for n in stores if n not in defaults0]
     sum_tests, neg_tests = check_site(ctx, idv, "FlowIR.inject_default_values", replaced, cfg, wl)
 
@@ -536,6 +547,33 @@ def run(ctx) -> None:
            "whose last component finishes between the two reads is in transit in the first list and finished in the second, it is added "
            "as fraction*weight and again as weight, and the reported total progress exceeds one" % (", ".join(sorted(shared)) or "none shared by the getters"),
            construct="get_stages_in_transit + get_stages_finished <- one lock acquisition")
+    # ... and the set that both selectors read is written under the same lock: an add that is not covered by it can land between the
+    # two reads of a reader that holds the lock
+    sel_reads: Set[str] = set()
+    for f_ in (gsf, gst):
+        for x in ast.walk(f_):
+            if isinstance(x, ast.Call) and last_attr(x) == "node_is_active":
+                sel_reads.add("comp_done")
+    nia = ctl.functions.get("Controller.node_is_active")
+    read_attrs = {x.attr for x in ast.walk(nia) if isinstance(x, ast.Attribute) and isinstance(x.value, ast.Name) and x.value.id == "self"} if nia is not None else set()
+    shared_sets = {a for a in read_attrs if a.startswith("comp_")}
+    n_w = 0
+    for q_, f_ in ctl.functions.items():
+        if q_.count(".") > 1 and not q_.startswith("Controller."):
+            continue
+        for c_ in source.calls_in(f_, include_nested=False):
+            if last_attr(c_) in ("add", "discard", "remove", "update", "clear") and isinstance(c_.func.value, ast.Attribute) and c_.func.value.attr in shared_sets \
+                    and isinstance(c_.func.value.value, ast.Name) and c_.func.value.value.id == "self":
+                n_w += 1
+                locked = any(isinstance(a_, ast.With) and any(isinstance(it.context_expr, ast.Attribute) and it.context_expr.attr in shared for it in a_.items)
+                             for a_ in source.ancestors(c_))
+                ctx.ob("C20.R7-total-is-a-weighted-sum", c_, locked,
+                       "%s changes self.%s under the component lock" % (q_, c_.func.value.attr) if locked else
+                       "%s changes self.%s - the set both stage selectors decide from - without holding %s: the status monitor reads the stages in "
+                       "transit and the finished stages under one acquisition of that lock, an add that lands between its two reads puts a stage in "
+                       "both lists and the reported total progress exceeds one" % (q_, c_.func.value.attr, ", ".join(sorted(shared)) or "the lock"),
+                       construct="%s: self.%s.%s(..) <- under the component lock" % (q_, c_.func.value.attr, last_attr(c_)))
+    ctx.floor("C20.R7-total-is-a-weighted-sum", n_w, 3, "writes of the set(s) that decide whether a node is active")
     # the current stage is taken out of both lists
     filt = [n for n in source.walk_own(cs) if isinstance(n, ast.Assign) and isinstance(n.value, ast.ListComp) and any(
         isinstance(c, ast.Call) and last_attr(c) in ("get_stages_in_transit", "get_stages_finished") for c in ast.walk(n.value))]
